@@ -653,9 +653,15 @@ class Gen(object):
         ch, r = self._pick_rec()
         if r is None:
             return None
-        if self.rng.random() < self.p.get("p_foreign_type", 0.0):
+        x = self.rng.random()
+        pf = self.p.get("p_foreign_type", 0.0)
+        if x < pf:
             # a type in a user namespace, possibly one the container has never seen
             return ["add_type", ["h", r[0]], self.name_spec(ch, {"qn": 3, "nsobj": 2})]
+        if x < pf + self.p.get("p_value_type", 0.0):
+            # any attribute value as a type (C05's quantifier: add_asserted_type with all attribute
+            # values, incl. typed literals of natively supported datatypes)
+            return ["add_type", ["h", r[0]], self.value_spec(ch)]
         return ["add_type", ["h", r[0]], ["qn", "prov", pools.PROV_URI, self.rng.choice(pools.PROV_TYPES)]]
 
     def g_copy(self):
